@@ -146,6 +146,19 @@ def fixed_list():
                     "type": "cartesian"}
     base.append(("F15 (ff|ff) with two primitives per shell", [f2([[0, 0]] * 3), f2([cg.dyadic(0.9, 8), [0, 0], cg.dyadic(0.3, 8)]),
                                                              f2([[0, 0], cg.dyadic(-0.8, 8), [0, 0]]), f2([cg.dyadic(0.2, 8), cg.dyadic(0.4, 8), cg.dyadic(-0.6, 8)])]))
+    # a diffuse shell listed BEFORE a tight one inside a pair (both with angular momentum): all angular momentum of a pair is
+    # built on its first centre and moved to the second with (A - B), which cancels large numbers when the product centre
+    # lies next to B (defect repaired by 19dda51: (ba|ba) was wrong by the size of the integral, (ab|ab) exact)
+    td = {"l": 2, "center": [cg.dyadic(-0.4888, 16), cg.dyadic(1.8982, 16), cg.dyadic(0.1868, 16)],
+          "exps": [cg.dyadic(0.4598, 16), cg.dyadic(25.77, 16), cg.dyadic(438.56, 16)], "coeffs": [[cg.dyadic(0.32, 8)], [cg.dyadic(0.48, 8)], [cg.dyadic(1.18, 8)]],
+          "type": "cartesian"}
+    dd = {"l": 2, "center": [cg.dyadic(0.6219, 16), cg.dyadic(0.3684, 16), cg.dyadic(-1.4485, 16)],
+          "exps": [cg.dyadic(0.995, 16), cg.dyadic(0.0435, 16)], "coeffs": [[cg.dyadic(0.317, 8)], [cg.dyadic(0.771, 8)]], "type": "cartesian"}
+    tp = dict(td, l=1, exps=[cg.dyadic(0.5, 16), cg.dyadic(15.0, 16), cg.dyadic(300.0, 16)])
+    dp = dict(dd, l=1, exps=[cg.dyadic(1.0, 16), cg.dyadic(0.05, 16)])
+    base.append(("F16 (diffuse d before tight d in both pairs)", [dd, td, dd, td]))
+    base.append(("F17 (diffuse d before tight d in the first pair only)", [dd, td, td, dd]))
+    base.append(("F18 (diffuse p before tight d, tight p before diffuse d)", [dp, td, tp, dd]))
     out = []
     for name, shs in base:
         out.append({"kind": "fixed", "name": name, "shells": shs})
